@@ -128,6 +128,7 @@ func runOpPair(a *args, res *result) {
 		sweepOverlap(res, kind, stuckCh)
 		if a.prop != "C08" {
 			tripleSweep(res, kind, stuckCh)
+			configPair(res, kind, stuckCh)
 		}
 	}
 	vshim.SetTokenMode(false)
@@ -600,4 +601,153 @@ func fmtVals(vs []any) []string {
 		out[i] = fmtVal(v)
 	}
 	return out
+}
+
+// configPair: the two settings of a cache - default expiration and evicted
+// callback - are independent. One setter A is parked at each of its steps, the
+// other setter B runs to completion, A is resumed. Afterwards the setting each of
+// them wrote must be the one in force: DefaultExpiration() and the expiry of a
+// SetDefault entry follow the default that was set, and a Delete reports to
+// exactly the callback that was installed last (none after SetEvictedCallback(nil)).
+// Two setters of the same setting may end either way round.
+func configPair(res *result, kind string, stuckCh chan string) {
+	type cfgOp struct {
+		name string
+		def  time.Duration // != 0: SetDefaultExpiration(def)
+		cb   int           // >0: SetEvictedCallback(ledger callback #cb); -1: SetEvictedCallback(nil)
+	}
+	ops := []cfgOp{
+		{"SetDefaultExpiration(7m)", 7 * time.Minute, 0},
+		{"SetDefaultExpiration(NoExpiration)", cache.NoExpiration, 0},
+		{"SetEvictedCallback(#2)", 0, 2},
+		{"SetEvictedCallback(nil)", 0, -1},
+	}
+	ops2 := []cfgOp{
+		{"SetDefaultExpiration(11m)", 11 * time.Minute, 0},
+		{"SetEvictedCallback(#3)", 0, 3},
+		{"SetEvictedCallback(nil)", 0, -1},
+	}
+	const def0 = 30 * time.Minute
+	for _, A := range ops {
+		for _, B := range ops2 {
+			for N := int64(1); N < 60; N++ {
+				vshim.SetVNow(epoch)
+				led := &ledger{}
+				c := newCache(cacheSpec{Flavor: kind, Ctor: "New", OptMask: 1 | 2 | 4, DefExp: def0, Interval: 0, NKeys: 64, Callback: led.cb(1)})
+				apply := func(o cfgOp) func() *hev {
+					return func() *hev {
+						switch {
+						case o.def != 0:
+							c.SetDefaultExpiration(o.def)
+						case o.cb > 0:
+							c.SetEvictedCallback(led.cb(o.cb))
+						default:
+							c.SetEvictedCallback(nil)
+						}
+						return &hev{}
+					}
+				}
+				logCase("oppair config-pair %s A=%s B=%s N=%d", kind, A.name, B.name, N)
+				res.Evaluations++
+				_, _, parked, stuck := runPair(N, apply(A), apply(B), stuckCh)
+				if !parked {
+					break
+				}
+				res.count("scenarios_parked", 1)
+				res.count("config_pair_scenarios", 1)
+				fp := newFP()
+				fp.addStr("config-pair" + kind + A.name + B.name)
+				fp.add(uint64(N))
+				res.nontrivial(fp.sum())
+				bad := func(sig, msg string) {
+					res.violate(violation{Class: "oppair", Sig: sig, Msg: fmt.Sprintf("%s, A=%s parked at its step %d, B=%s ran, A resumed: %s", kind, A.name, N, B.name, msg), Case: map[string]any{"kind": kind, "A": A.name, "B": B.name, "N": N}})
+				}
+				if stuck != "" {
+					bad("a settings call does not return when another one was suspended mid-call", stuck)
+					return
+				}
+				// expected default(s)
+				wantDef := map[time.Duration]bool{}
+				if A.def != 0 {
+					wantDef[A.def] = true
+				}
+				if B.def != 0 {
+					wantDef[B.def] = true
+				}
+				if len(wantDef) == 0 {
+					wantDef[def0] = true
+				}
+				norm := func(d time.Duration) time.Duration {
+					if d <= 0 {
+						return 0
+					}
+					return d
+				}
+				got := c.DefaultExpiration()
+				okDef := false
+				for d := range wantDef {
+					if norm(d) == norm(got) {
+						okDef = true
+					}
+				}
+				if !okDef {
+					bad("a default expiration that was set is lost when the callback is set concurrently", fmt.Sprintf("DefaultExpiration()=%v", got))
+					return
+				}
+				c.SetDefault(1, nextVal(1))
+				_, exp, ok := c.GetWithExpiration(1)
+				okExp := false
+				for d := range wantDef {
+					if norm(d) == 0 && ok && exp.IsZero() || norm(d) > 0 && ok && exp.UnixNano() == epoch+int64(d) {
+						okExp = true
+					}
+				}
+				if !okExp {
+					bad("SetDefault does not use the default expiration in force", fmt.Sprintf("GetWithExpiration = (%v, %v), DefaultExpiration()=%v", exp, ok, got))
+					return
+				}
+				// expected callback(s): 0 = none
+				wantCb := map[int]bool{}
+				for _, o := range []cfgOp{A, B} {
+					if o.cb > 0 {
+						wantCb[o.cb] = true
+					} else if o.cb < 0 {
+						wantCb[0] = true
+					}
+				}
+				if len(wantCb) == 0 {
+					wantCb[1] = true
+				}
+				led.mu.Lock()
+				led.entries = nil
+				led.mu.Unlock()
+				v := nextVal(2)
+				c.Set(2, v, time.Hour)
+				c.Delete(2)
+				led.mu.Lock()
+				cbs := append([]ledgerEntry(nil), led.entries...)
+				led.mu.Unlock()
+				gotCb := 0
+				if len(cbs) > 1 {
+					bad("Delete fires more than one callback", fmt.Sprintf("%d callbacks", len(cbs)))
+					return
+				}
+				if len(cbs) == 1 {
+					gotCb = cbs[0].CbID
+					if cbs[0].K != 2 || cbs[0].V != any(v) {
+						bad("callback with another entry than the one removed", fmt.Sprintf("(k%d,%s)", cbs[0].K, fmtVal(cbs[0].V)))
+						return
+					}
+				}
+				if !wantCb[gotCb] {
+					bad("a removal is not reported to the callback in force (a callback that was set is lost when the default expiration is set concurrently)", fmt.Sprintf("Delete reported to callback #%d (0 = none)", gotCb))
+					return
+				}
+				if c.HasEvictedCallback() != (gotCb != 0) {
+					bad("HasEvictedCallback disagrees with the callback that fires", fmt.Sprintf("HasEvictedCallback()=%v, Delete reported to callback #%d", c.HasEvictedCallback(), gotCb))
+					return
+				}
+			}
+		}
+	}
 }
